@@ -1509,7 +1509,7 @@ rv = .false.
                 fmt.f_array_allocate = "(" + ",".join(visitor.shape) + ")"
                 if c_ast.attrs["context"]:
                     fmt.f_array_shape = wformat(
-                        ", {c_var_context}%shape(1:{rank})", fmt)
+                        ",\t {c_var_context}%shape(1:{rank})", fmt)
 
         return ntypemap
 
@@ -1784,7 +1784,7 @@ rv = .false.
                         fmt_arg.c_var = "SH_" + fmt_arg.f_var
                         arg_f_decl.append(f_arg.gen_arg_as_fortran(
                             name=fmt_arg.c_var, local=True, bindc=True))
-                        append_format(pre_call, "{c_var} = {pre_call_intent}", fmt_arg)
+                        append_format(pre_call, "{c_var} =\t {pre_call_intent}", fmt_arg)
                         arg_c_call.append(fmt_arg.c_var)
                     else:
                         arg_c_call.append(fmt_arg.pre_call_intent)
